@@ -31,7 +31,7 @@ import (
 	"github.com/dolthub/dolt/go/zzverif/vsql"
 )
 
-const c35Rule = "one server per test; per case a file remote (file:// URL under the scratch dir), an author database `a` (table t, 3-5 rows, optionally 200 bulk rows, and table big(pk, who, doc TEXT, bin BLOB, js JSON) with 1-2 rows, pushed as main) and two databases `b`, `c` made by dolt_clone; then 10-16 drawn operations by a drawn actor: commit (a fresh row of t, in 2 of 3 commits instead a fresh row of big whose TEXT / BLOB / JSON cells are drawn from the size classes inline (1-300 bytes), around the 2048-byte inline/out-of-line threshold, out of line (2.5-7 KB) and multi-chunk (12-24 KB), optionally rewriting a wide cell of an older row of the same author; or a new table) on main/b1/b2, tag, dolt_push [--force] of a branch, push of a tag, deletion of a remote branch (push origin :b), dolt_fetch, dolt_pull (fast-forward, up-to-date or merge of disjoint rows), race (two actors pull the same branch, both commit, both push without --force in a drawn order), a fresh dolt_clone into a new database, dolt_backup add+sync (optionally over a dirty working set) followed by dolt_backup restore. Model: remote branch/tag -> hash, updated only by operations that must succeed; a non-force push must succeed iff the remote branch is absent, equal to, or an ancestor (by dolt_log at the pusher) of the pushed head, otherwise it must fail and leave every remote ref as it was. Oracle after every transfer: the remote's datasets (opened in process from its directory, no cache) equal the model; destination refs (remote-tracking refs after fetch/pull/clone, the local branch after pull: == remote head on fast-forward, a commit with both heads as ancestors on merge) have the predicted hashes; every ref of the destination database renders (hash, dolt_log, tables, schemas, all rows AS OF incl. the wide cells, i.e. they are read back through SQL at the destination) exactly like the record taken where that commit was created; closure walk (types.WalkAddrsFromNomsValue from every dataset head) over the destination chunk store (remote directory, clone, backup directory) finds every address; a backup's root hash equals the source's and the restored database's vsql.Fingerprint equals the source's; of two racing pushes exactly the first succeeds. Non-trivial (DESIGN): at least two successful data-carrying transfers into a destination that already held part of the data, at least two distinct branches or tags transferred, and at least one rejected push, forced push, merge pull or remote branch deletion; distinct by operation list."
+const c35Rule = "one server per test; every database name (author, clones, restored backups) is created in a drawn case (lower / Mixed / UPPER) and spelled by its session in a drawn case; per case a file remote (file:// URL under the scratch dir), an author database `a` (table t, 3-5 rows, optionally 200 bulk rows, and table big(pk, who, doc TEXT, bin BLOB, js JSON) with 1-2 rows, pushed as main) and two databases `b`, `c` made by dolt_clone; then 10-16 drawn operations by a drawn actor: commit (a fresh row of t, in 2 of 3 commits instead a fresh row of big whose TEXT / BLOB / JSON cells are drawn from the size classes inline (1-300 bytes), around the 2048-byte inline/out-of-line threshold, out of line (2.5-7 KB) and multi-chunk (12-24 KB), optionally rewriting a wide cell of an older row of the same author; or a new table) on main/b1/b2, tag, dolt_push [--force] of a branch, push of a tag, deletion of a remote branch (push origin :b), dolt_fetch, dolt_pull (fast-forward, up-to-date or merge of disjoint rows), race (two actors pull the same branch, both commit, both push without --force in a drawn order), a fresh dolt_clone into a new database, dolt_backup add+sync (optionally over a dirty working set) followed by dolt_backup restore. Model: remote branch/tag -> hash, updated only by operations that must succeed; a non-force push must succeed iff the remote branch is absent, equal to, or an ancestor (by dolt_log at the pusher) of the pushed head, otherwise it must fail and leave every remote ref as it was. Oracle after every transfer: the remote's datasets (opened in process from its directory, no cache) equal the model; destination refs (remote-tracking refs after fetch/pull/clone, the local branch after pull: == remote head on fast-forward, a commit with both heads as ancestors on merge) have the predicted hashes; every ref of the destination database renders (hash, dolt_log, tables, schemas, all rows AS OF incl. the wide cells, i.e. they are read back through SQL at the destination) exactly like the record taken where that commit was created; closure walk (types.WalkAddrsFromNomsValue from every dataset head) over the destination chunk store (remote directory, clone, backup directory) finds every address; a backup's root hash equals the source's and the restored database's vsql.Fingerprint equals the source's; of two racing pushes exactly the first succeeds. Non-trivial (DESIGN): at least two successful data-carrying transfers into a destination that already held part of the data, at least two distinct branches or tags transferred, and at least one rejected push, forced push, merge pull or remote branch deletion; distinct by operation list."
 
 var c35Assumptions = []string{
 	"file remotes only (the HTTP remote backend and real multi-process pushers are not covered by this part)",
@@ -473,10 +473,10 @@ func (c *c35Case) pull(a *c35Actor, branch string) {
 }
 
 func (c *c35Case) cloneFresh(label string) *c35Actor {
-	db := c.srv.NewDBName()
+	db := gcDrawDBName(c.rt, c.srv, "clone_"+label)
 	c.dbs = append(c.dbs, db)
 	c.x(c.admin, fmt.Sprintf("CALL dolt_clone('%s', '%s')", c.remoteURL, db))
-	se := c.srv.Session(c.rt, label, db)
+	se := c.srv.Session(c.rt, label, gcSpell(c.rt, "clone_"+label, db))
 	when := "after dolt_clone into " + db
 	refs := c.refsOf(se)
 	gotRemote, gotTag := map[string]string{}, map[string]string{}
@@ -541,7 +541,7 @@ func TestVerif_C35(t *testing.T) {
 func c35Run(rt *rapid.T, srv *vsql.Server, admin *vsql.Session, scratch string, rec *vh.Recorder) {
 	c := &c35Case{rt: rt, srv: srv, admin: admin, scratch: scratch, rBranch: map[string]string{}, rTag: map[string]string{},
 		record: map[string][]string{}, refsMoved: map[string]bool{}, special: map[string]bool{}, wide: map[string]bool{}, nextPK: 100}
-	adb := srv.NewDBName()
+	adb := gcDrawDBName(rt, srv, "author")
 	c.dbs = append(c.dbs, adb)
 	c.remoteDir = filepath.Join(scratch, adb+"-remote")
 	c.remoteURL = "file://" + c.remoteDir
@@ -550,11 +550,11 @@ func c35Run(rt *rapid.T, srv *vsql.Server, admin *vsql.Session, scratch string, 
 			a.se.Close()
 		}
 		for _, db := range c.dbs {
-			_ = admin.Exec("DROP DATABASE IF EXISTS " + db)
+			_ = admin.Exec("DROP DATABASE IF EXISTS `" + db + "`")
 		}
 	}()
-	admin.MustExec(rt, "CREATE DATABASE "+adb)
-	a := &c35Actor{name: "a", db: adb, se: srv.Session(rt, "a", adb)}
+	admin.MustExec(rt, "CREATE DATABASE `"+adb+"`")
+	a := &c35Actor{name: "a", db: adb, se: srv.Session(rt, "a", gcSpell(rt, "author", adb))}
 	c.actors = append(c.actors, a)
 	nInit := rapid.IntRange(3, 5).Draw(rt, "init_rows")
 	bulk := rapid.SampledFrom([]int{0, 0, 200}).Draw(rt, "bulk_rows")
@@ -773,7 +773,7 @@ func c35Run(rt *rapid.T, srv *vsql.Server, admin *vsql.Session, scratch string, 
 				sort.Strings(diffs)
 				c.fatalf("%s: datasets differ:\n  %s", when, strings.Join(diffs, "\n  "))
 			}
-			rdb := c.srv.NewDBName()
+			rdb := gcDrawDBName(c.rt, c.srv, lbl+"_restore")
 			c.dbs = append(c.dbs, rdb)
 			c.x(c.admin, fmt.Sprintf("CALL dolt_backup('restore', 'file://%s', '%s')", bdir, rdb))
 			fpSrc := vsql.Fingerprint(c.rt, c.srv, act.db)
@@ -784,7 +784,7 @@ func c35Run(rt *rapid.T, srv *vsql.Server, admin *vsql.Session, scratch string, 
 			if errs := c08Errors(fpDst); len(errs) > 0 {
 				c.fatalf("restored database has unreadable parts: %v", errs)
 			}
-			rse := c.srv.Session(c.rt, "restored", rdb)
+			rse := c.srv.Session(c.rt, "restored", gcSpell(c.rt, lbl+"_restore", rdb))
 			c.checkDB(rse, rdb, "after dolt_backup restore into "+rdb)
 			rse.Close()
 			if dirtyWS {
@@ -812,7 +812,7 @@ func c35Run(rt *rapid.T, srv *vsql.Server, admin *vsql.Session, scratch string, 
 			}
 		}
 	}
-	classes = append(classes, fmt.Sprintf("refs_moved=%d", len(c.refsMoved)), fmt.Sprintf("incremental_transfers=%d", min(c.xferIntoNonEmpty, 6)))
+	classes = append(classes, gcNameCase(adb), fmt.Sprintf("refs_moved=%d", len(c.refsMoved)), fmt.Sprintf("incremental_transfers=%d", min(c.xferIntoNonEmpty, 6)))
 	if bulk > 0 {
 		classes = append(classes, "bulk")
 	}
